@@ -377,7 +377,7 @@ static void conc_case(Rng& rng) {
     unsigned steps = 3 + (unsigned)rng.below(g_serial ? 6 : 30);
     g_scenario = "concurrent: " + std::to_string(nt) + " threads, " + std::to_string(nobj) + " shared object(s), " + std::to_string(steps) + " steps each";
     std::vector<std::vector<unsigned> > script(nt, std::vector<unsigned>(steps));
-    for (auto& s : script) for (auto& x : s) x = (unsigned)rng.below(10);
+    for (auto& s : script) for (auto& x : s) x = (unsigned)rng.below(12);
     uint64_t destroyed0 = Registry::get().destroyed, constructed0 = Registry::get().constructed;
     dsched::Sched& S = dsched::S();
     S.context = "counting_ptr";
@@ -385,6 +385,9 @@ static void conc_case(Rng& rng) {
     {
         std::vector<P> roots(nobj);
         for (auto& r : roots) r = P(new Obj());
+        // a handle that only its creator owns (count 1) and that several threads copy from at the same
+        // time without a lock: concurrent reads of one handle object are allowed
+        const P sole(new Obj());
         // a mailbox through which threads hand copies to each other
         dsched::mutex box_mutex;
         P box;
@@ -404,7 +407,8 @@ static void conc_case(Rng& rng) {
                     case 4: { std::unique_lock<dsched::mutex> l(box_mutex); if (box) { a = box; } break; } // adopt the published one
                     case 5: { std::unique_lock<dsched::mutex> l(box_mutex); box.reset(); break; }
                     case 6: a.swap(b); if (!a) a = b; break;
-                    case 8: case 9: a.unify(); break;           // clone if shared - while others may be letting go
+                    case 8: case 9: a.unify(); break;
+                    case 10: case 11: b = sole; break;          // copy of the shared, singly owned handle           // clone if shared - while others may be letting go
                     default: if (a && (*a->heap <= 0 || *a->heap > a->id)) verif::fail("C12:concurrent:object-corrupted", g_scenario); break;   // a clone keeps the value of its original
                     }
                     if (a && !Registry::get().alive(a.get())) { verif::fail("C12:concurrent:destroyed-while-referenced", "a thread holds a handle to a destroyed object | " + g_scenario); break; }
